@@ -25,3 +25,14 @@ class Fine:
     def f(self, k):
         self._cache[k] = 1
         return self.TABLE[k]
+
+
+_memo = {}                              # module-level table filled by a function
+_CONSTANTS = {"x": 1}                   # read-only module table: not flagged
+
+
+def decide(a, b):
+    key = (id(a), id(b))
+    if key not in _memo:
+        _memo[key] = a == b
+    return _memo[key] and _CONSTANTS["x"]
